@@ -162,6 +162,12 @@ func canonW(sb *strings.Builder, v reflect.Value) {
 					sb.WriteString("newerror:" + lit)
 					return
 				}
+			case *ast.SwitchStmt:
+				// a switch without tag is the if / else-if chain over its cases in order
+				if chain := switchAsIfChain(x); chain != nil {
+					canonW(sb, reflect.ValueOf(chain))
+					return
+				}
 			}
 		}
 		canonW(sb, v.Elem())
@@ -907,4 +913,51 @@ func typeShort(t types.Type) string {
 		s = s[:40]
 	}
 	return s
+}
+
+
+// switchAsIfChain: `switch { case a: A; case b, c: B; default: D }` as `if a {A} else if b || c {B} else {D}`; nil when the
+// switch has a tag or an init statement, or a body uses break/fallthrough (whose meaning depends on the switch).
+func switchAsIfChain(sw *ast.SwitchStmt) ast.Stmt {
+	if sw.Tag != nil || sw.Init != nil || sw.Body == nil || len(sw.Body.List) == 0 {
+		return nil
+	}
+	bad := false
+	ast.Inspect(sw.Body, func(n ast.Node) bool {
+		if br, ok := n.(*ast.BranchStmt); ok && (br.Tok == token.BREAK || br.Tok == token.FALLTHROUGH) {
+			bad = true
+		}
+		return !bad
+	})
+	if bad {
+		return nil
+	}
+	var def *ast.CaseClause
+	var cases []*ast.CaseClause
+	for _, st := range sw.Body.List {
+		cc, ok := st.(*ast.CaseClause)
+		if !ok {
+			return nil
+		}
+		if cc.List == nil {
+			def = cc
+		} else {
+			cases = append(cases, cc)
+		}
+	}
+	if len(cases) == 0 {
+		return nil
+	}
+	var els ast.Stmt
+	if def != nil {
+		els = &ast.BlockStmt{List: def.Body}
+	}
+	for k := len(cases) - 1; k >= 0; k-- {
+		cond := cases[k].List[0]
+		for _, e := range cases[k].List[1:] {
+			cond = &ast.BinaryExpr{X: cond, Op: token.LOR, Y: e}
+		}
+		els = &ast.IfStmt{Cond: cond, Body: &ast.BlockStmt{List: cases[k].Body}, Else: els}
+	}
+	return els
 }
